@@ -143,6 +143,18 @@ pub struct Transport<T, R> {
     resolver: R,
 }
 
+/// Verification hook: constructor for a [`Transport`] with a caller-supplied [`Resolver`]
+/// (the fields are private and the only other constructors build a `TokioResolver`).
+#[cfg(libp2p_verif)]
+impl<T, R> Transport<T, R> {
+    pub fn verif_with_resolver(inner: T, resolver: R) -> Self {
+        Transport {
+            inner: Arc::new(Mutex::new(inner)),
+            resolver,
+        }
+    }
+}
+
 impl<T, R> libp2p_core::Transport for Transport<T, R>
 where
     T: libp2p_core::Transport + Send + Unpin + 'static,
